@@ -114,6 +114,34 @@ func init() {
 			c.Errf("clientstream: checkResponse not found")
 		}
 		c.Fact("clientstream.checkResponse_tests", order)
+		// connectStandaloneSSE: the status that means "no standalone stream here", and the order of its tests
+		notOffered := 0
+		var openTests []string
+		if cs := c.Func("mcp", "streamableClientConn", "connectStandaloneSSE"); cs != nil {
+			for _, st := range cs.Body.List {
+				is, ok := st.(*ast.IfStmt)
+				if !ok {
+					continue
+				}
+				cond := norm(is.Cond)
+				if is.Init != nil {
+					cond = norm(is.Init) + "; " + cond
+				}
+				openTests = append(openTests, cond)
+				if be, ok := is.Cond.(*ast.BinaryExpr); ok && be.Op == token.EQL && strings.HasSuffix(c.Src(be.X), ".StatusCode") && notOffered == 0 {
+					if se, ok := be.Y.(*ast.SelectorExpr); ok && se.Sel.Name == "StatusMethodNotAllowed" {
+						notOffered = 405
+					}
+				}
+			}
+		} else {
+			c.Errf("clientstream: connectStandaloneSSE not found")
+		}
+		if notOffered == 0 {
+			c.Errf("clientstream: connectStandaloneSSE has no `StatusCode == http.StatusMethodNotAllowed` test")
+		}
+		fmt.Fprintf(&b, "/-- connectStandaloneSSE: the status that means that the server does not offer the standalone stream -/\ndef standaloneNotOffered : Nat := %d\n", notOffered)
+		c.Fact("clientstream.standalone_open_tests", openTests)
 		b.WriteString("end Generated.ClientWrite\n")
 		c.Lean["ClientWriteGen"] = b.String()
 	})
